@@ -20,6 +20,7 @@ QUICK = [
     cfg(1, 'INTRUSIVE_SET', vine=1, rmcol=1, rep=1), cfg(1, 'VECTOR', idx='IDENTIFIER', vine=1, rmcol=1, mapc=1), cfg(1, 'HEAP', vine=1),
     cfg(2, 'INTRUSIVE_LIST', idx='POSITION', vine=1, rmcol=1, mapc=1, rows=1, rep=1), cfg(2, 'SET', vine=1, rmcol=1, mapc=1), cfg(2, 'LIST', idx='IDENTIFIER', vine=1, rmcol=1, mapc=1),
     cfg(2, 'INTRUSIVE_SET', rep=1), cfg(1, 'UNORDERED_SET', rep=1), cfg(1, 'SMALL_VECTOR', vine=1, rmcol=0, rep=1),
+    cfg(1, 'VECTOR', rep=1, rmcol=1),      # lazily erasing columns in R and U with removals (release build: see C05.run)
 ]
 COLS = ['LIST', 'SET', 'HEAP', 'VECTOR', 'NAIVE_VECTOR', 'SMALL_VECTOR', 'UNORDERED_SET', 'INTRUSIVE_LIST', 'INTRUSIVE_SET']
 
@@ -44,9 +45,11 @@ def thorough_cfgs():
     return out
 
 
-def build(ctx, cfgs, sanitize=False):
+def build(ctx, cfgs, sanitize=False, release=False):
+    """release: -O2 -DNDEBUG (GUDHI_CHECK, GUDHI_CHECK_code and assert compiled out), the way the library is normally used"""
     src = os.path.join(vlib.VERIF, 'harness', 'hPM.cpp')
-    specs = [dict(name='hPM_' + n + ('_san' if sanitize else ''), src=src, defines=d, sanitize=sanitize) for n, d, c in cfgs]
+    specs = [dict(name='hPM_' + n + ('_san' if sanitize else '') + ('_rel' if release else ''), src=src, defines=list(d) + (['NDEBUG'] if release else []), sanitize=sanitize,
+                  opt='-O2' if release else '-O1') for n, d, c in cfgs]
     exes, errs = vlib.build_many(ctx, specs)
     return exes, errs
 
@@ -145,9 +148,11 @@ def gen_case(rng, caps, p=2, want_vine=False, want_rep=False, custom_ids=False, 
     if insert_after_swap is None: insert_after_swap = caps.get('flav') != 2
     removed_middle = False      # identifier-indexed boundary matrices hand out a colliding default identifier after such a removal (known finding)
     swapped = False
-    r0 = rng.random()
-    cells = random_cw(rng) if r0 < 0.12 else random_cubical(rng) if r0 < 0.35 else random_simplicial(rng)
-    order = linear_extension(rng, cells)
+    order = []
+    while not order:        # (an empty complex is possible, rarely)
+        r0 = rng.random()
+        cells = random_cw(rng) if r0 < 0.12 else random_cubical(rng) if r0 < 0.35 else random_simplicial(rng)
+        order = linear_extension(rng, cells)
     if len(order) > 26: order = order[:26]
     ids = {}; nxt = 0
     sim = Sim(p); lines = ['new %d' % p, 'ids %s' % ('custom' if custom_ids else 'default')]
@@ -167,11 +172,12 @@ def gen_case(rng, caps, p=2, want_vine=False, want_rep=False, custom_ids=False, 
         sim.ins(ids[c], d, bb)
         lines.append('ins %d %d %s' % (ids[c], d, ' '.join('%d:%d' % (r, cf) for r, cf in sorted(bb.items()) if cf)))
     pending = list(order)
-    k0 = rng.randrange(1, len(pending) + 1) if (caps['rm'] or caps['vine']) and not on_demand else len(pending)
+    # (R-only matrices with removable columns: insertions and removals of the last cell alternate before the one and only barcode request)
+    k0 = rng.randrange(1, len(pending) + 1) if (caps['rm'] or caps['vine']) and (not on_demand or rng.random() < 0.6) else len(pending)
     for c in pending[:k0]: insert(c)
     pending = pending[k0:]
     if rng.random() < observe_every: obs()
-    steps = rng.randrange(0, 14) if not on_demand else 0
+    steps = rng.randrange(0, 14) if not on_demand else (rng.randrange(0, 12) if caps['rm'] else 0)
     removed = []
     if dup_p and rng.random() < 2 * dup_p: lines.append('dup %d' % rng.randrange(5))
     for _ in range(steps):
@@ -181,7 +187,8 @@ def gen_case(rng, caps, p=2, want_vine=False, want_rep=False, custom_ids=False, 
             sw = sim.admissible_swaps()
             if not sw: continue
             i = rng.choice(sw); lines.append('swap %d' % i); sim.order[i], sim.order[i + 1] = sim.order[i + 1], sim.order[i]; swapped = True
-        elif caps['rm'] and r < 0.75 and sim.order and not custom_ids and not plain_ids:
+        elif caps['rm'] and r < 0.75 and sim.order and ((not custom_ids and not plain_ids) or on_demand):
+            # (custom identifiers + remove_last: part of a known finding for matrices with row swaps or removable rows; the R-only flavour has neither)
             cid = sim.order[-1]
             if cid in [x for c in sim.order for x in sim.bd[c]]: continue
             lines.append('rmlast'); sim.order.pop(); removed.append((cid, sim.dim.pop(cid), sim.bd.pop(cid)))
@@ -192,10 +199,12 @@ def gen_case(rng, caps, p=2, want_vine=False, want_rep=False, custom_ids=False, 
         elif pending and (insert_after_swap or not swapped) and not ((removed_middle or swapped) and caps.get('idid')):
             c = pending.pop(0)
             if all(f in ids and ids[f] in sim.bd or not True for f, _ in cells[c][1]) and all(ids.get(f) in sim.dim for f, _ in cells[c][1]): insert(c)
-        elif removed and not custom_ids and (insert_after_swap or not swapped) and not ((removed_middle or swapped) and caps.get('idid')):
+        elif removed and (not custom_ids or on_demand) and (insert_after_swap or not swapped) and not ((removed_middle or swapped) and caps.get('idid')):
             cid, d, b = removed.pop()
             if all(f in sim.dim for f in b):
-                nid = nxt; nxt += 1; sim.ins(nid, d, b)
+                if on_demand and custom_ids and cid not in sim.dim and cid > max(list(sim.dim) + [-1]) and rng.random() < 0.6: nid = cid; nxt = max(nxt, cid + 1)      # the freed identifier is used again, possibly at another position (identifiers stay strictly increasing along the filtration, as documented)
+                else: nid = nxt; nxt += 1 + (rng.randrange(0, 3) if custom_ids else 0)
+                sim.ins(nid, d, b)
                 lines.append('ins %d %d %s' % (nid, d, ' '.join('%d:%d' % (r2, cf) for r2, cf in sorted(b.items()) if cf)))
         if rng.random() < observe_every: obs()
     if on_demand:
